@@ -128,12 +128,18 @@ class SymExec:
         self.flagfacts = {}  # (bool key, value) -> tuple of fact sets, one per assignment of that literal (alternatives)
         self.pc = []       # path condition: (if-node, branch, cond value) of the enclosing conditionals
         self._inline_stack = []
+        self._inline_sites = []
+        self.closure_nodes = {}
         self.inlined = []     # (callee def, call node) of crate-local helpers interpreted in place
 
     # ------------------------------------------------------------------ utilities
     def log(self, kind, **kw):
         kw["kind"] = kind
         kw["cond_depth"] = self.cond_depth
+        if self._inline_sites and kind in ("push", "store", "assign", "interp", "events", "call", "return_value", "copy") and "node" in kw:
+            # events raised inside a helper interpreted in place are attributed to the call site in the analysed function
+            kw["inner_node"] = kw["node"]
+            kw["node"] = self._inline_sites[0]
         self.trace.append(kw)
 
     def fresh(self, prefix):
@@ -887,7 +893,53 @@ class SymExec:
         return Poly.atom("never")
 
     def e_Closure(self, e):
-        return opaque("closure", [Poly.atom(e.get("def", "?"))], tag=e.get("sp"))
+        v = opaque("closure", [Poly.atom(e.get("def", "?"))], tag=e.get("sp"))
+        self.closure_nodes[v.single_atom()] = e
+        return v
+
+    def call_local_closure(self, e):
+        """`let c = |..| ..; c(args)`: interpret the closure body in place (captured locals are the caller's)"""
+        v = self.st.get(e.get("id")) if self.st is not None else None
+        a = v.single_atom() if isinstance(v, Poly) else None
+        cl = self.closure_nodes.get(a)
+        if cl is None or len(self._inline_stack) >= 2 or cl.get("def") in self._inline_stack:
+            return NotImplemented
+        ps = cl.get("params") or []
+        if len(ps) != len(e["args"]):
+            return NotImplemented
+        snap = (dict(self.st), len(self.exits), len(self.trace), list(self.pc), list(self.comp), self.h.snapshot() if self.h else None)
+        self._inline_stack.append(cl.get("def"))
+        self._inline_sites.append(e)
+        try:
+            vals = [self.eval(x) for x in e["args"]]
+            for p_, v_ in zip(ps, vals):
+                self.bind_pat(p_, v_)
+            n_ex = len(self.exits)
+            out = self.eval(cl["body"])
+            rets = [x for x in self.exits[n_ex:] if x[0] == "return"]
+            self.exits[n_ex:] = [x for x in self.exits[n_ex:] if x[0] != "return"]
+            states = ([self.st] if self.st is not None else []) + [x[2] for x in rets]
+            rvals = ([out] if self.st is not None else []) + [x[3] for x in rets]
+            self.st = self.join_states(states)
+            res = rvals[0] if rvals else Poly.atom("never")
+            for w in rvals[1:]:
+                res = res if (type(res) is type(w) and res == w) else self.join_val(res, w, "ret")
+            self.inlined.append((cl.get("def"), e))
+            self.log("inline", callee=cl.get("def"), node=e, args=[self._p(x) for x in vals], closure=cl)
+            return res if res is not None else Poly.atom("unit")
+        except Exception:
+            st0, n_ex0, n_tr0, pc0, comp0, hs = snap
+            self.st = st0
+            del self.exits[n_ex0:]
+            del self.trace[n_tr0:]
+            self.pc = pc0
+            self.comp = comp0
+            if self.h and hs is not None:
+                self.h.restore(hs)
+            return NotImplemented
+        finally:
+            self._inline_stack.pop()
+            self._inline_sites.pop()
 
     def e_Struct(self, e):
         fs = []
@@ -898,10 +950,19 @@ class SymExec:
                 v = self.st[v.key]
             raw[f["name"]] = v
             fs.append(self._p(v))
-        self.log("struct", node=e, fields=raw, facts=self.path_facts())
-        if False:
-            pass
-        return opaque("struct:" + e.get("def", "?"), fs, tag=e.get("sp"))
+        if e.get("base") is not None:
+            # functional update `S { a, ..base }`: the remaining fields come from the base value; if the base was built by
+            # a literal seen in this interpretation (e.g. an inlined constructor), take them from there
+            bv = self._p(self.eval(e["base"]))
+            for ev in reversed(self.trace):
+                if ev["kind"] == "struct" and ev["node"].get("def") == e.get("def") and ev.get("value") == bv:
+                    for k_, v_ in ev["fields"].items():
+                        raw.setdefault(k_, v_)
+                    break
+            fs.append(bv)
+        val = opaque("struct:" + e.get("def", "?"), fs, tag=e.get("sp"))
+        self.log("struct", node=e, fields=raw, facts=self.path_facts(), value=val)
+        return val
 
     def e_ConstBlock(self, e):
         return self.fresh("constblock")
@@ -1460,6 +1521,7 @@ class SymExec:
         snap = (dict(self.st) if self.st is not None else None, len(self.exits), len(self.trace), list(self.pc), list(self.comp),
                 self.h.snapshot() if self.h else None)
         self._inline_stack.append(d)
+        pushed_site = False
         try:
             vals = []
             for a in arg_nodes:
@@ -1471,6 +1533,8 @@ class SymExec:
             for p_, v_ in zip(params, vals):
                 self.bind_pat(p_, v_)
             n_ex = len(self.exits)
+            self._inline_sites.append(e)
+            pushed_site = True
             v = self.eval(body["body"])
             rets = [x for x in self.exits[n_ex:] if x[0] == "return"]
             self.exits[n_ex:] = [x for x in self.exits[n_ex:] if x[0] != "return"]
@@ -1484,7 +1548,7 @@ class SymExec:
                 for w in rvals[1:]:
                     out = out if (type(out) is type(w) and out == w) else self.join_val(out, w, "ret")
             self.inlined.append((d, e))
-            self.log("inline", callee=d, node=e)
+            self.log("inline", callee=d, node=e, args=[self._p(x) for x in vals])
             return out if out is not None else Poly.atom("unit")
         except Exception:
             st0, n_ex0, n_tr0, pc0, comp0, hs = snap
@@ -1498,9 +1562,15 @@ class SymExec:
             return NotImplemented
         finally:
             self._inline_stack.pop()
+            if pushed_site:
+                self._inline_sites.pop()
 
     def e_Call(self, e):
         d = e.get("def") or ""
+        if not d and e.get("res") == "local":
+            r = self.call_local_closure(e)
+            if r is not NotImplemented:
+                return r
         if self.h:
             r = self.h.call(self, e, d)
             if r is not NotImplemented:
